@@ -211,6 +211,33 @@ def dstepTokens (d : DState) (ts : List String) : DState × String :=
               ({ d with views := ((s, n), c) :: d.views.filter (fun v => v.1 ≠ (s, n)) }, "ok")
             else (d, "bad:not-a-view-of-the-tree " ++ (Cache.ofTree cl.root).render))
      | _, _, _ => (d, "bad-op"))
+  | ["cvisit", s, n, dir, tgt, w, stop] =>
+    -- VisitItemsAscendEx / VisitItemsDescendEx to the end on the cached view (Model L): what the
+    -- visitor saw with depths, the file reads in order, the view afterwards (visited items that
+    -- have a location are evicted on the way out)
+    (match s.toNat?, parseBytes n, parseBytes tgt with
+     | some s, some (some n), some tgt =>
+       (match assocGet s d.w.stores with
+        | none => (d, "nostore")
+        | some st => match collsGet n st.colls, st.file with
+          | none, _ => (d, "nocoll")
+          | some _, none => (d, "err-nofile")
+          | some cl, some f =>
+            match d.views.find? (fun v => v.1 = (s, n)) with
+            | none => (d, "noview")
+            | some (_, c) =>
+              -- STOP = 0: the visitor never stops; STOP = k > 0: it says stop at the k-th item
+              match (match stop.toNat? with
+                  | some 0 => Cache.visitC (d.w.file f).bytes cl.cmp.fn (dir == "asc") (w == "1")
+                      (cl.root.size + 2) c (tgt.getD []) 0
+                  | some k => (Cache.visitCK (d.w.file f).bytes cl.cmp.fn (dir == "asc") (w == "1")
+                      (cl.root.size + 2) c (tgt.getD []) 0 k).map fun x => (x.1, x.2.2.1, x.2.2.2)
+                  | none => none) with
+              | none => (d, "err")
+              | some (out, c', rds) =>
+                ({ d with views := ((s, n), c') :: d.views.filter (fun v => v.1 ≠ (s, n)) },
+                 Cache.renderVisitOut out c' rds))
+     | _, _, _ => (d, "bad-op"))
   | "cget" :: s :: n :: rest | "cmin" :: s :: n :: rest | "cmax" :: s :: n :: rest
   | "cevict" :: s :: n :: rest =>
     -- GetItem / MinItem / MaxItem / EvictSomeItems on the cached view (Model L): the answer, the
